@@ -380,6 +380,57 @@ class H:
             finally:
                 done.set()
 
+    async def corrupt_explicit(self, spec: dict) -> None:
+        """The open child names its parent explicitly (`Context(parent)`) and is entered by a
+        task in which that parent is not the current context: still an open child of it."""
+        sim = self.sim
+        p_ready = anyio.Event()
+        entered = anyio.Event()
+        release = anyio.Event()
+        box: dict[str, Any] = {}
+        h = self
+
+        async def other() -> None:
+            # spawned before p exists: whatever is current here, it is not p
+            await p_ready.wait()
+            c = Context(box["p"])
+            h.know(c, spec["cid"])
+            sim.log("corrupt_begin", p=spec["pid"], c=spec["cid"], parent=h.cid(c.parent), root=box["p"].parent is None, how="explicit_foreign")
+            async with c:
+                entered.set()
+                await release.wait()
+
+        async with create_task_group() as tg:
+            tg.start_soon(other, name="w:explicit_child")
+            p = _mk(spec.get("falsy_parent"))
+            self.know(p, spec["pid"])
+            await p.__aenter__()
+            box["p"] = p
+            p_ready.set()
+            try:
+                await entered.wait()
+            except BaseException as e:
+                release.set()
+                with CancelScope(shield=True):
+                    try:
+                        await p.__aexit__(type(e), e, e.__traceback__)
+                    except BaseException:  # noqa: BLE001
+                        pass
+                raise
+            try:
+                await p.__aexit__(None, None, None)
+            except BaseException as e:
+                sim.log(
+                    "corrupt_exit", p=spec["pid"], exc=describe(e), cls=type(e).__name__, closed=p.closed,
+                    root=p.parent is None, how="explicit_foreign", reported=_mentions_corruption(e),
+                )
+                release.set()
+                if contains_cancel(e):
+                    raise
+            else:
+                sim.log("corrupt_exit", p=spec["pid"], exc=None, cls=None, closed=p.closed, root=p.parent is None, how="explicit_foreign", reported=False)
+                release.set()
+
     async def corrupt_orphan(self, spec: dict) -> None:
         """The open child was entered by a helper task that has ended; nobody holds a
         reference to it any more and a garbage collection has run: it is still an open
@@ -485,6 +536,9 @@ class H:
             return
         if how == "orphan":
             await self.corrupt_orphan(spec)
+            return
+        if how == "explicit_foreign":
+            await self.corrupt_explicit(spec)
             return
         p = _mk(spec.get("falsy_parent"))
         self.know(p, spec["pid"])
@@ -1319,6 +1373,8 @@ def oracle(sim: Sim, plan: dict) -> list[dict]:
                     key = "silent_mid_teardown"
                 elif d.get("how") == "orphan":
                     key = "silent_orphan"
+                elif d.get("how") == "explicit_foreign":
+                    key = "silent_explicit_parent"
                 elif d.get("root") and d.get("how") != "clean":
                     key = "silent_root_failing_exit"
                 v(
@@ -1676,7 +1732,7 @@ def gen_c13(g: G) -> dict:
                                 {
                                     "pid": f"x{g.nctx - 1}",
                                     "cid": f"x{g.nctx}",
-                                    "how": rng.choice(("clean", "clean", "exception", "base_exception", "mid_teardown", "mid_teardown", "orphan")),
+                                    "how": rng.choice(("clean", "clean", "exception", "base_exception", "mid_teardown", "mid_teardown", "orphan", "explicit_foreign")),
                                     "falsy_parent": rng.random() < 0.15,
                                     "gap": [rng.choice((0, 1, 2)), rng.choice((0.0, 0.0, 0.5))],
                                 },
